@@ -406,6 +406,8 @@ impl Inst {
             .await?;
         // side file of a previous life of this folder: room id and key -> id map
         if let Ok(txt) = std::fs::read_to_string(idmap_path(&inst.folder)) {
+            // the logical clock of the previous life advanced by one per request: stay ahead of it
+            inst.seq = 100_000;
             for l in txt.lines() {
                 let t: Vec<&str> = l.split(' ').collect();
                 if t.len() == 2 && t[0] == "room" {
@@ -979,11 +981,20 @@ impl Inst {
         };
         // a fault of the repo-side facility fired iff the point is no longer armed and the batch failed;
         // the trace is the reference
-        if matches!(fault_spec.point, Point::Begin | Point::Marks) {
-            fired = errors.iter().any(|m| m.contains("verif fault injected"));
+        // the repo-side points: the fault fired iff the batch stopped right there (the next point was not reached)
+        {
+            let c2 = fault::counts();
+            if fault_spec.point == Point::Begin {
+                fired = cnt(&c2, "batch.group.before") == cnt(&c, "batch.group.before");
+            }
+            if fault_spec.point == Point::Marks && !fault_spec.abort {
+                fired = cnt(&c2, "batch.before_commit") == cnt(&c, "batch.before_commit") + 1;
+            }
         }
-        if fault_spec.point == Point::Commit {
-            fired = fired && errors.iter().any(|m| m.contains("FOREIGN KEY"));
+        if fault_spec.point == Point::Commit && !fault_spec.abort {
+            // the violation was planted and the batch did not get past its COMMIT
+            let c2 = fault::counts();
+            fired = fired && cnt(&c2, "batch.after_commit") == cnt(&c, "batch.after_commit") + 1;
         }
         let c2 = fault::counts();
         let batches = cnt(&c2, "batch.before_begin") - begin0;
